@@ -2203,6 +2203,22 @@ def clone_flush_program(rng, pid, cfg, cs):
     return {"id": pid, "cfg": cfg, "ops": ops, "origin": "io:clone-flush"}
 
 
+def intr_write_programs(tag, cfg, cs):
+    """one program per device call k of a multi-cluster write_all that starts on a cluster boundary: that call is interrupted once
+    (EINTR-like); where the looping caller repeats the piece the write succeeds, and then nothing may be lost, shifted or written twice:
+    the flushed file survives every later crash point with exactly its content"""
+    out = []
+    for k in range(1, 31):
+        ops = [{"op": "create_file", "at": "", "path": "a.bin", "as": "a"}, {"op": "write_all", "h": "a", "pat": 3, "len": cs},
+               {"op": "write_all", "h": "a", "pat": 4, "len": 2 * cs + 5}, {"op": "flush", "h": "a"},
+               {"op": "create_file", "at": "", "path": "other.bin", "as": "o"}, {"op": "write_all", "h": "o", "pat": 5, "len": cs + 1}, {"op": "close", "h": "o"},
+               {"op": "close", "h": "a"}, {"op": "open_file", "at": "", "path": "a.bin", "as": "r"}, {"op": "read_all", "h": "r", "len": 4 * cs},
+               {"op": "close", "h": "r"}, {"op": "unmount"}]
+        out.append({"id": "%s-%d" % (tag, k), "cfg": dict(cfg, wlog=True), "ops": ops, "crash": {"stride": 1},
+                    "fault": {"at": 2, "k": k, "intr": True, "continue": True}, "origin": "crash:intr-write"})
+    return out
+
+
 def with_remounts(prog, rng, k=2):
     """insert k session ends (unmount / dropfs) at random positions: handles still open are closed by the executor"""
     ops = list(prog["ops"])
